@@ -399,6 +399,203 @@ def call_impl(f):
                            [c.__name__ for c in type(e).__mro__ if c.__name__ in ERR][0]])
 
 
+
+# ------------------------------------------------------------------ independence of derived objects
+def snapshot(N, obj):
+    """complete observable content of a CPD / factor (None, reason when it is internally inconsistent)"""
+    f, e = impl_form(N, obj)
+    if e:
+        return None, e
+    f["table"] = named_table(f["vars"], f["cards"], f["flat"], f["sn"])
+    if f["table"] is None:
+        return None, "state names do not cover the cardinalities"
+    f["class"] = type(obj).__name__
+    if hasattr(obj, "variable"):
+        f["variable"] = [repr(obj.variable), int(obj.variable_card)]
+    return f, None
+
+
+def snap_equal(a, b):
+    if a is None or b is None:
+        return False
+    for k in ("vars", "cards", "sn", "class"):
+        if a[k] != b[k]:
+            return False
+    if a.get("variable") != b.get("variable"):
+        return False
+    if len(a["flat"]) != len(b["flat"]):
+        return False
+    for x, y in zip(a["flat"], b["flat"]):
+        if (x != y) and not (x != x and y != y):
+            return False
+    return tables_equal(a["table"], b["table"])
+
+
+def by_name_probe(N, obj, snap):
+    """use the object's own name machinery: out-of-place reduce of the first non-child variable by state NAME
+    must be the (column-normalised for a CPD) slice of its table; get_value by name for every cell when the
+    variable names are identifiers.  Returns None or a reason."""
+    import numpy as np
+    vs = list(obj.variables)
+    is_cpd = type(obj).__name__ == "TabularCPD"
+    if len(vs) >= 2:
+        for pos in sorted({1, len(vs) - 1}):
+            var = vs[pos]
+            u = N.var(var)
+            for si, sname in enumerate(list(obj.state_names[var])):
+                try:
+                    r = obj.reduce([(var, sname)], inplace=False, show_warnings=False)
+                except Exception as e:  # any failure of a by-name reduce on an intact object is a defect
+                    return "by-name reduce raised %s: %s" % (type(e).__name__, str(e)[:80])
+                rs, e = snapshot(N, r)
+                if e:
+                    return "by-name reduce result inconsistent: " + e
+                fixed = (u, snap["sn"][u][si])
+                sl = {frozenset(p for p in key if p[0] != u): val for key, val in snap["table"].items() if fixed in key}
+                if is_cpd:
+                    ch = snap["vars"][0]
+                    dens = {}
+                    for k2, v2 in sl.items():
+                        pk = frozenset(p for p in k2 if p[0] != ch)
+                        dens[pk] = dens.get(pk, 0.0) + v2
+                    exp = {}
+                    for k2, v2 in sl.items():
+                        d = dens[frozenset(p for p in k2 if p[0] != ch)]
+                        exp[k2] = (v2 / d) if d != 0 else float("nan")
+                else:
+                    exp = sl
+                if set(exp) != set(rs["table"]):
+                    return "by-name reduce: wrong scope/state names"
+                for k2, v2 in exp.items():
+                    g = rs["table"][k2]
+                    if math.isfinite(v2) and not common.approx(g, v2, 1e-8):
+                        return "by-name reduce of %r=%r reads a wrong cell: got %r expected %r" % (var, sname, g, v2)
+    if all(isinstance(x, str) and x.isidentifier() for x in vs):
+        for idx in itertools.product(*[range(int(c)) for c in obj.cardinality]):
+            kw = {v: obj.state_names[v][i] for v, i in zip(vs, idx)}
+            try:
+                g = float(obj.get_value(**kw))
+            except Exception as e:
+                return "get_value by name raised %s" % type(e).__name__
+            ex = float(np.asarray(obj.values)[idx])
+            if (g != ex) and not (g != g and ex != ex):
+                return "get_value by name reads a wrong cell at %r" % (kw,)
+    return None
+
+
+def sharing(a, b):
+    """top-level mutable parts of two objects that are the same Python object / share memory"""
+    import numpy as np
+    out = []
+    for attr in ("variables", "cardinality", "values", "state_names", "name_to_no", "no_to_name"):
+        x, y = getattr(a, attr, None), getattr(b, attr, None)
+        if x is None or y is None:
+            continue
+        if x is y:
+            out.append(attr)
+        elif attr in ("values", "cardinality"):
+            try:
+                if np.shares_memory(np.asarray(x), np.asarray(y)):
+                    out.append(attr + "(memory)")
+            except Exception:
+                pass
+    return out
+
+
+def inplace_ops(obj, rng):
+    """[(label, thunk)] of in-place operations through the public API; each is tried on a fresh pair"""
+    vs = list(obj.variables)
+    ops = []
+    is_cpd = type(obj).__name__ == "TabularCPD"
+    parents = vs[1:]
+    targets = [parents[0], parents[-1]] if len(parents) >= 2 else parents[:1]
+    for var in targets:
+        names = list(obj.state_names[var])
+        sname = names[rng.randrange(len(names))]
+        ops.append(("reduce[%d]" % vs.index(var), lambda o, var=var, sname=sname: o.reduce([(var, sname)], inplace=True, show_warnings=False)))
+        ops.append(("marginalize[%d]" % vs.index(var), lambda o, var=var: o.marginalize([var], inplace=True)))
+        ops.append(("maximize[%d]" % vs.index(var), lambda o, var=var: o.maximize([var], inplace=True)))
+        ops.append(("del_state_names[%d]" % vs.index(var), lambda o, var=var: o.del_state_names([var])))
+        ops.append(("name-table-edit[%d]" % vs.index(var), lambda o, var=var: (o.name_to_no[var].clear(), o.no_to_name[var].clear(), o.state_names[var].reverse())
+                    if False else (o.name_to_no.__setitem__(var, {}), o.no_to_name.__setitem__(var, {}), o.state_names.__setitem__(var, ["q%d" % i for i in range(len(names))]))))
+    ops.append(("normalize", lambda o: o.normalize(inplace=True)))
+    ops.append(("values-edit", lambda o: o.values.__iadd__(1.0)))
+    ops.append(("scope-edit", lambda o: (o.variables.reverse(), o.cardinality.__setitem__(0, 9))))
+    if all(isinstance(x, str) and x.isidentifier() for x in vs):
+        kw = {v: obj.state_names[v][0] for v in vs}
+        ops.append(("set_value", lambda o: o.set_value(0.125, **kw)))
+    if is_cpd and len(parents) >= 2:
+        ops.append(("reorder_parents", lambda o: o.reorder_parents(list(reversed(parents)), inplace=True)))
+    return ops
+
+
+def derive_kinds(k, pc, esn, vn, rng):
+    """[(label, function original -> derived object)] for every out-of-place result the property lists"""
+    kinds = [("copy", lambda c: c.copy()), ("to_factor", lambda c: c.to_factor()),
+             ("normalize(inplace=False)", lambda c: c.normalize(inplace=False)),
+             ("marginalize([],inplace=False)", lambda c: c.marginalize([], inplace=False))]
+    if k >= 2:
+        u = rng.randrange(1, k + 1)
+        s = esn[u][rng.randrange(pc[u - 1])]
+        kinds.append(("marginalize(inplace=False)", lambda c, u=u: c.marginalize([vn[u]], inplace=False)))
+        kinds.append(("reduce(inplace=False)", lambda c, u=u, s=s: c.reduce([(vn[u], s)], inplace=False, show_warnings=False)))
+    return kinds
+
+
+def run_independence(N, fresh, k, pc, esn, vn, rng, tags):
+    """mutate a derived object in place -> the original must be completely unchanged (and still work by name),
+    and the other way round"""
+    base = fresh()
+    s0, e = snapshot(N, base)
+    if e:
+        return bad("impl-inconsistent:fresh", e)
+    r = by_name_probe(N, base, s0)
+    if r:
+        return bad("impl!=spec:by-name-access", {"object": "fresh CPD", "reason": r})
+    for dlabel, derive in derive_kinds(k, pc, esn, vn, rng):
+        proto = derive(fresh())
+        for direction in ("derived-mutated", "original-mutated"):
+            nops = len(inplace_ops(proto if direction == "derived-mutated" else base, random.Random(1)))
+            for oi in range(nops):
+                orig = fresh()
+                der = derive(orig)
+                sh = sharing(orig, der)
+                if sh:
+                    return bad("impl!=spec:derived-object-shares-state", {"derived": dlabel, "shared": sh})
+                so, e1 = snapshot(N, orig)
+                sd, e2 = snapshot(N, der)
+                if e1 or e2:
+                    return bad("impl-inconsistent:derived", {"derived": dlabel, "orig": e1, "der": e2})
+                if not snap_equal(so, s0):
+                    return bad("impl!=spec:out-of-place-mutates-original", {"derived": dlabel})
+                mut, keep, skeep = (der, orig, so) if direction == "derived-mutated" else (orig, der, sd)
+                label, op = inplace_ops(mut, random.Random(rng.random()))[oi]
+                try:
+                    op(mut)
+                except (ValueError, KeyError, IndexError, TypeError):
+                    pass  # the mutated object may refuse; the other one must be intact either way
+                sk, e = snapshot(N, keep)
+                if e or not snap_equal(sk, skeep):
+                    return bad("impl!=spec:not-independent",
+                               {"derived": dlabel, "direction": direction, "op": label, "reason": e or "content changed",
+                                "state_names": str(skeep["sn"])[:200]})
+                r = by_name_probe(N, keep, skeep)
+                if r:
+                    return bad("impl!=spec:not-independent",
+                               {"derived": dlabel, "direction": direction, "op": label, "reason": r,
+                                "state_names": str(skeep["sn"])[:200]})
+                if type(keep).__name__ == "TabularCPD" and direction == "derived-mutated":
+                    try:
+                        keep.is_valid_cpd()
+                        if k >= 1:
+                            keep.copy().marginalize([keep.variables[1]])
+                    except Exception as ex:
+                        return bad("impl!=spec:not-independent", {"derived": dlabel, "direction": direction, "op": label,
+                                                                   "reason": "original broken: %s" % type(ex).__name__})
+        tags.append("independence:" + dlabel)
+    return None
+
+
 # ------------------------------------------------------------------ CPD cases
 def sn_dict(case, k):
     if case["sn"] is None:
@@ -629,6 +826,12 @@ def run_cpd(case, drv):
     impo, e = impl_form(N, c2)
     if e or cmp_forms("to_factor-independence", impo, mod0):
         return bad("impl!=spec:to_factor-shares-values", {})
+
+    # --- independence of every derived object (both directions, every in-place operation)
+    if case.get("indep", True):
+        b = run_independence(N, fresh, k, pc, esn, vn, rng, tags)
+        if b:
+            return b
 
     # --- get_value by keyword (string variable names only)
     if all(isinstance(x, str) and x.isidentifier() for x in vn):
